@@ -232,4 +232,19 @@ PROPS = {
         'trusted_base': ['TIFA visitors, NewPath, merge_paths, store_variable/load_variable, _finish_scope: bounded part only',
                          'is_subtype / type_changes / locate / _issue as abstract callees inside combine_states'],
     },
+    'C10': {
+        'sidecars': ['contracts/c10_cait.py'],
+        'native': 'c10', 'ground': False,
+        'level': 'other',
+        'explanation': 'Proved from the real source (the places where a candidate pairing is kept or dropped): metas_match is the '
+                       'field test; AstMap() starts empty; add_node_pairing / add_exp_to_sym_table record exactly the given pair, only '
+                       'CaitNodes, and leave every other entry alone; has_conflicts is the emptiness test of conflict_keys; map_merge '
+                       'keeps an extension only if the merged map has no conflicting binding and its sibling index is one of the '
+                       'candidates and lies to the right of a base sibling (left-to-right order), returns None without candidates; '
+                       'binflex_helper (operand swap of + and *) adds only conflict-free maps. Bounded (B-cait-sound): the witness of '
+                       'every match the real matcher returns on a generated pattern/program corpus, checked by an independent '
+                       'embedding checker. The recursive matcher, shallow_match_main and the symbol tables are bounded only.',
+        'trusted_base': ['new_merged_map as an abstract callee returning a new AstMap (its conflict list is what has_conflicts reads)',
+                         'deep_find_match*, shallow_match*, add_x_to_sym_table, merge_map_with, any_node_match: bounded part only'],
+    },
 }
